@@ -32,6 +32,8 @@ def run_shape(start, mode, direction, dp, desc, ratio=None, res=None,
     L = hist.shape_length(info)
     if res is None:
         res = L / ratio
+        if not res > 1e-300:
+            res = 0.05      # zero-length / subnormal-length request: any valid resolution
     g.set_resolution(float(res))
     p0 = g.position.resolve()
     start_abs = (float(p0.x), float(p0.y), float(p0.z))
